@@ -22,7 +22,7 @@ LEAN_TARGETS = ['CfVerif.Props.C12']
 PROPS_MODULES = ['CfVerif.Props.C12']
 DRIVER = 'Driver/C12.lean'
 REQUIRED_THEOREMS = ['CfVerif.C12.refused_if_too_big', 'CfVerif.C12.upload_covers_once', 'CfVerif.C12.flash_exact',
-                     'CfVerif.C12.write_flash_attempts_bounded', 'CfVerif.C12.write_flash_ok_only_if_acked', 'CfVerif.C12.abort_on_failure',
+                     'CfVerif.C12.upload_no_aliasing', 'CfVerif.C12.gen_fresh_packets', 'CfVerif.C12.write_flash_attempts_bounded', 'CfVerif.C12.write_flash_ok_only_if_acked', 'CfVerif.C12.abort_on_failure',
                      'CfVerif.C12.geometry_from_own_connection', 'CfVerif.C12.flash_uses_geometry_of_this_connection', 'CfVerif.C12.stale_cache_counterexample',
                      'CfVerif.C12.gen_loader_state', 'CfVerif.C12.gen_update_info', 'CfVerif.C12.gen_update_info_tests', 'CfVerif.C12.ref_attempts_le', 'CfVerif.C12.ref_unanswered', 'CfVerif.C12.ref_answered_at_once',
                      'CfVerif.C12.gen_upload', 'CfVerif.C12.gen_upload_room', 'CfVerif.C12.gen_write_flash', 'CfVerif.C12.gen_retry_test',
@@ -137,6 +137,22 @@ def extract(ctx):
     g.nat('uploadFlushAt', cmp_.comparators[0].value)
     g.strings('uploadCountUpdates', [ast.unparse(n) for n in sorted((m for m in ast.walk(ub) if isinstance(m, (ast.AugAssign, ast.Assign)) and ast.unparse(m.targets[0] if isinstance(m, ast.Assign) else m.target) == 'count'), key=lambda m: m.lineno)])
     g.strings('uploadSends', [ast.unparse(c) for c in _calls(ub, 'link.send_packet')])
+    # aliasing: after a packet object has been handed to link.send_packet it must not be touched again - the next chunk
+    # needs a NEW CRTPPacket before anything is written to `pk` (a link may keep the object and serialise it later)
+    def fresh_after_send(body):
+        idx = [i for i, s_ in enumerate(body) if isinstance(s_, ast.Expr) and isinstance(s_.value, ast.Call) and ast.unparse(s_.value.func).endswith('link.send_packet')]
+        if not idx:
+            return None
+        for s_ in body[idx[0] + 1:]:
+            if isinstance(s_, ast.Assign) and ast.unparse(s_.targets[0]) == 'pk':
+                return isinstance(s_.value, ast.Call) and ast.unparse(s_.value.func) == 'CRTPPacket'
+            if any(isinstance(n, ast.Name) and n.id == 'pk' for n in ast.walk(s_)):
+                return False
+        return True        # pk is not used again in this block
+    fullif = _one([n for n in ast.walk(ub) if isinstance(n, ast.If) and n.test is cmp_], 'packet-full branch of upload_buffer')
+    fr = fresh_after_send(fullif.body)
+    X.expect(fr is not None, 'upload_buffer: the packet-full branch does not send the packet')
+    g.raw('def uploadFreshPacket : Bool := ' + ('true' if fr else 'false') + '   -- a new CRTPPacket object is created after every send inside the loop')
     # ---- Cloader.write_flash -----------------------------------------------------------------------------
     wf = X.func(CLOAD, 'Cloader.write_flash')
     X.expect([a.arg for a in wf.args.args] == ['self', 'addr', 'page_buffer', 'target_page', 'page_count'], 'write_flash signature changed')
@@ -191,6 +207,9 @@ def extract(ctx):
     g.strings('writeReturns', [ast.unparse(n.value) if n.value else 'None' for n in sorted((m for m in ast.walk(wf) if isinstance(m, ast.Return)), key=lambda m: m.lineno)])
     g.strings('writeErrorCode', [ast.unparse(n.value) for n in sorted((m for m in ast.walk(wf) if isinstance(m, ast.Assign) and ast.unparse(m.targets[0]) == 'self.error_code'), key=lambda m: m.lineno)])
     g.strings('writeSends', [ast.unparse(c) for c in _calls(wf, 'link.send_packet')])
+    first = whiles[1].body[0]
+    g.raw('def writeFreshPacket : Bool := ' + ('true' if isinstance(first, ast.Assign) and ast.unparse(first.targets[0]) == 'pk' and isinstance(first.value, ast.Call)
+                                               and ast.unparse(first.value.func) == 'CRTPPacket' else 'false') + '   -- every attempt builds a new CRTPPacket object')
     # ---- Bootloader._internal_flash ------------------------------------------------------------------------
     fl = X.func(BOOT, 'Bootloader._internal_flash')
     env = {}
@@ -854,7 +873,7 @@ def correspond(ctx):
                      ('flash', c['key'], c['addr'], ps, bp, c['fp'], c['sp'], c['override'], ln, tuple(fmt_outcome(o) for o in c['script']), len(c['inbox']), tuple(c['term'] or ()))))
     for (tid, page, address, buff) in gen_upload_cases(ctx):
         for mode in ('eager', 'deferred'):       # the same bytes must go on the air whether or not the link serialises at once
-            lines.append('upload %d %d %d %s' % (tid, page, address, hexs(buff)))
+            lines.append('%s %d %d %d %s' % ('upload' if mode == 'eager' else 'uploadobj', tid, page, address, hexs(buff)))
             r = real_upload(tid, page, address, buff, mode)
             reals.append(r)
             ctx.count('upload:result:' + r.split(' ')[0])
